@@ -496,15 +496,15 @@ fn receiver_case(ctx: &Ctx, rep: &mut Report, case: u64, g: &mut Sm64) {
 }
 
 pub fn run(ctx: &Ctx, rep: &mut Report) {
-    for c in ctx.case_ids("counting", 48, 1600) {
+    for c in ctx.case_ids("counting", 48, 3200) {
         let mut g = ctx.rng("counting", c);
         counting_case(ctx, rep, c, &mut g);
     }
-    for c in ctx.case_ids("samplers", 16, 640) {
+    for c in ctx.case_ids("samplers", 16, 1280) {
         let mut g = ctx.rng("samplers", c);
         mh_gibbs_case(ctx, rep, c, &mut g);
     }
-    for c in ctx.case_ids("precision", 32, 640) {
+    for c in ctx.case_ids("precision", 32, 1280) {
         let mut g = ctx.rng("precision", c);
         match c % 4 {
             0 => grad_case::<f32, B32>(ctx, rep, c, &mut g, "NdArray<f32>"),
@@ -513,7 +513,7 @@ pub fn run(ctx: &Ctx, rep: &mut Report) {
             _ => grad_case::<f32, B64>(ctx, rep, c, &mut g, "NdArray<f64>"),
         }
     }
-    for c in ctx.case_ids("receiver", 32, 640) {
+    for c in ctx.case_ids("receiver", 32, 1280) {
         let mut g = ctx.rng("receiver", c);
         receiver_case(ctx, rep, c, &mut g);
     }
